@@ -13,6 +13,7 @@ RULE = (
     "value None/non-array, provider value changed, the array object of another position passed again); tuples, optionals, return phase and provider scopes mixed in; a quarter of the contexts also as calls of a dltyped function (every call style, trailing parameters left at their default value). "
     "non-trivial = distinct operation line with >=1 annotated array that passed the rank test of its first tensor"
 )
+RULE += " Also: constructions of decorated NamedTuples / dataclasses (fields inherited from a base dataclass) / pydantic models; provider histories whose bodies update a provider during the call (false accepts judged by the per-call oracle of C12)."
 
 
 def cases(tier, rng, run):
